@@ -222,7 +222,12 @@ class Frame:
     def read(self, local, proj):
         v = self.store.get(local)
         if v is None:
-            v = Uninit()
+            if self.interp.cfg.get("lazy_locals") and self.depth == 0:
+                nm = self.body.local_name(local) or "_%d" % local
+                v = Sym(nm, ty=strip_generics(self.body.locals[local]["ty"]))
+                self.store[local] = v
+            else:
+                v = Uninit()
         return self._project(v, proj, local)
 
     def _project(self, v, proj, local=None):
@@ -271,9 +276,7 @@ class Frame:
         if not path:
             self.store[local] = val
             return
-        base = self.store.get(local)
-        if base is None:
-            base = Uninit()
+        base = self.read(local, [])
 
         def set_local(v):
             self.store[local] = v
@@ -515,9 +518,6 @@ class Interp:
                     fr.write(pl.local, pl.proj, self.rvalue(fr, st["rv"]))
             t = blk["term"]
             k = t["t"]
-            stop = self.cfg.get("stop_at")
-            if stop is not None and bb in stop and bb != start:
-                return ("stopped", bb, fr)
             if k == "goto":
                 bb = t["target"]
             elif k == "return":
@@ -731,6 +731,9 @@ class Interp:
                 e = self.fresh(e)
             ret_ty = strip_generics(body.locals[dest.local]["ty"]) if not dest.proj else None
             res = Sym(e, ty=ret_ty)
+            if self.events and self.events[-1][0] == "call" and self.events[-1][3] == body.loc(bb, "term") \
+                    and len(self.events[-1]) == 5:
+                self.events[-1] = self.events[-1] + (res,)
         fr.write(dest.local, dest.proj, res)
         return None
 
